@@ -1,6 +1,7 @@
 package gen
 
 import (
+	"bytes"
 	"encoding/json"
 	"fmt"
 	"strings"
@@ -206,7 +207,7 @@ func (b *builder) fillValues(c *scen.Call) {
 	}
 }
 
-var subNames = []string{"sub", "s1", "case_a", "b", "sub10", "sub2", "nest", "A", "1", "Sub"}
+var subNames = []string{"sub", "s1", "case_a", "b", "sub10", "sub2", "nest", "A", "1", "Sub", "sub.1", "sub-2", "v9a", "v10"}
 
 func (b *builder) genNode(name, full string, site, depth int) *scen.TestNode {
 	r, p := b.r, b.p
@@ -310,6 +311,16 @@ func (b *builder) mutateCall(c *scen.Call) {
 			}
 		}
 	default:
+		if (c.API == scen.APIJSON || c.API == scen.APISJSON) && len(c.Matchers) == 0 && r.Bool(0.35) {
+			// the same document with its members in another order: identical when keys are
+			// sorted (must pass), different text when they are not (must be reported)
+			if v := c.Values[0]; v.K == "s" || v.K == "b" {
+				if p, ok := permuteJSON(v.S); ok {
+					c.Values[0].S = p
+					return
+				}
+			}
+		}
 		old, _ := json.Marshal(c.Values)
 		for k := 0; k < 10; k++ {
 			b.fillValues(c)
@@ -319,6 +330,48 @@ func (b *builder) mutateCall(c *scen.Call) {
 			}
 		}
 	}
+}
+
+// permuteJSON rotates the members of a top-level JSON object.
+func permuteJSON(doc []byte) ([]byte, bool) {
+	dec := json.NewDecoder(bytes.NewReader(doc))
+	tok, err := dec.Token()
+	if err != nil || tok != json.Delim('{') {
+		return nil, false
+	}
+	type kv struct {
+		k string
+		v json.RawMessage
+	}
+	var members []kv
+	for dec.More() {
+		kt, err := dec.Token()
+		if err != nil {
+			return nil, false
+		}
+		var raw json.RawMessage
+		if err := dec.Decode(&raw); err != nil {
+			return nil, false
+		}
+		members = append(members, kv{kt.(string), raw})
+	}
+	if len(members) < 2 {
+		return nil, false
+	}
+	members = append(members[1:], members[0])
+	var out bytes.Buffer
+	out.WriteByte('{')
+	for i, m := range members {
+		if i > 0 {
+			out.WriteByte(',')
+		}
+		kb, _ := json.Marshal(m.k)
+		out.Write(kb)
+		out.WriteByte(':')
+		out.Write(m.v)
+	}
+	out.WriteByte('}')
+	return out.Bytes(), true
 }
 
 // edit derives the next lifetime's program from prog.
@@ -565,7 +618,7 @@ func (b *builder) faults(prog []*scen.TestNode, kill bool) []scen.Fault {
 			// Clean opening a used snapshot file
 			f.Kind = "openfile"
 			f.CallID = -2
-			f.PathSuffix = []string{"zz_world_a_test.snap", "zz_world_b_test.snap", "zz_world_c_test.snap", "shared.snap", "data.snap"}[r.Intn(5)]
+			f.PathSuffix = []string{"zz_world_a_test.snap", "zz_world_b_test.snap", "zz_world_c.snapshot_test.snap", "shared.snap", "data.snap"}[r.Intn(5)]
 			f.Nth = 1
 		}
 		if k.kind == "readdir" || k.kind == "remove" {
